@@ -50,7 +50,9 @@ RULE = ("suite site-order: the same generated tree under 3 listing orders (every
 def _order_job(args: Tuple[int, int, int, str]) -> List[Case]:
     seed, i, variants, size = args
     rng = random.Random((seed * 1000003 + i) * 7 + 1)
-    site = G.gen_site(rng, "title-with-scaled-value" if i % 7 == 3 else "valid", size)
+    # every 7th tree: a defect that must be reported the same way under every listing order / RNG state
+    prof = {3: "title-with-scaled-value", 5: "multiple-readme-same-name", 1: "empty-recipe-block"}.get(i % 7, "valid")
+    site = G.gen_site(rng, prof, size)
     out: List[Case] = []
     ref = None
     for v in range(variants):
